@@ -230,13 +230,26 @@ let pfx_handler (args : string list) : string =
            Printf.sprintf "n=%d;bad=[%s]" n (String.concat "," (List.rev !bad)))
   | _ -> "?bad-PFX"
 
+let contains (s : string) (sub : string) : bool =
+  let n = String.length s and m = String.length sub in
+  let rec go i = i + m <= n && (String.sub s i m = sub || go (i + 1)) in go 0
+
 let dt_handler (args : string list) : string =
   match args with
   | t :: hex :: rest ->
       let d = parse_desc t in
       let inp = bytes_of_hex hex in
-      let pos = (match rest with p :: _ -> n_of_string p | [] -> N0) in
-      show_run (show_val d) (decode_auto cfg_full (ty_of d) (at_pos inp pos))
+      let pos = (match List.filter (fun x -> String.length x > 0 && x.[0] <> '=') rest with p :: _ -> n_of_string p | [] -> N0) in
+      let r = decode_auto cfg_full (ty_of d) (at_pos inp pos) in
+      let main = show_run (show_val d) r in
+      let main = (match r with
+        | (Ok v, _) when not (List.mem t ["strref"; "bytesref"; "cstrref"; "pathref"]) && not (contains t "set(" || contains t "heap(" || contains t "map(") ->
+            main ^ ";re=" ^ (match encode_ty (ty_of d) v with Some cs -> hex_or_dash (flat cs) | None -> "refused")
+        | _ -> main) in
+      (* an expectation carried by the case (a re-framed encoding of a known value): that value, or an error *)
+      (match List.filter (fun x -> String.length x > 0 && x.[0] = '=') rest with
+       | e :: _ -> main ^ "\tS=ok:" ^ String.sub e 1 (String.length e - 1) ^ ";*||err"
+       | [] -> main)
   | _ -> "?bad-DT"
 
 let () =
